@@ -41,9 +41,15 @@ Matrix3D ==
                                    \X (1..NC(X.xi[1])) \X (1..NC(X.xi[2])) \X (1..NC(X.xi[3])) :
                                  Ref3(e) # 0})
 
+(*  "adj": a real Simulation.gradient through a computational grid of the    *)
+(*         same shape as the model grid but other widths: obs = the gradient *)
+(*         is the transpose of the (TLC-checked) forward map applied to the  *)
+(*         gradient on the computational grid                                *)
 OK == CASE X.kind = "w1d" -> Weights1D
         [] X.kind = "m3d" -> Matrix3D /\ X.obs
+        [] X.kind = "adj" -> X.obs
 Failed == IF OK THEN {} ELSE {IF X.kind = "w1d" THEN "Weights1D"
+                              ELSE IF X.kind = "adj" THEN "GradientIsTranspose"
                               ELSE IF Matrix3D THEN "Observations" ELSE "Matrix3D"}
 Accept ==
   /\ IF Failed # {} THEN TLCSet(3, TLCGet(3) \cup {<<iid, f>> : f \in Failed})
